@@ -561,7 +561,7 @@ def run_reader_p(chunks, max_steps=MAX_DELIVERIES):
     conn._connection_state = ConnectionState.ACTIVE
     conn._socket_reader = _Rd()
 
-    class _Lg:
+    class _Lg(C.LogBase):
         def exception(self, *a, **k):
             import sys
             e = sys.exc_info()[1]
@@ -690,7 +690,7 @@ def live_run(chunks, faults=None):
         def get_extra_info(self, *_):
             return None
 
-    class _Lg:
+    class _Lg(C.LogBase):
         def exception(self, *a, **k):
             out["exceptions"] += 1
 
@@ -1022,7 +1022,7 @@ def history_run(hist):
         def get_extra_info(self, *_):
             return ("127.0.0.1", 1)
 
-    class _Lg:
+    class _Lg(C.LogBase):
         def exception(self, *a, **k):
             obs["exceptions"] += 1
 
@@ -1161,7 +1161,7 @@ def history_run(hist):
             return clock[0]
 
     with patch("asyncio.open_connection", open_connection), \
-            patch("asyncfix.connection.time", _Clk), \
+            patch("asyncfix.connection.time", C.clock_patch(__import__("asyncfix.connection").connection, _Clk.time)), \
             patch("asyncio.sleep", fast_sleep):
         asyncio.run(main())
     return obs
